@@ -157,6 +157,25 @@ pub fn long_span_series() -> Vec<Series> {
     v
 }
 
+/// non-round steps with every item count 1..=kmax and spans 0..3 ns around a whole number of steps: the float quotient
+/// span/step of such series rounds erratically once k*step exceeds 2^53 ns, so a handful of k values cannot stand for all
+pub fn medium_series(kmax: i128) -> Vec<Series> {
+    let mut v = vec![];
+    let day = 86_400 * NS;
+    for (ts, start) in [(TimeScale::TAI, 0i128), (TimeScale::GPST, 12_345_678_901_234_567)] {
+        for step in [day + 1, 7 * day + 1, 3600 * NS + 1, day - 1, 400 * day + 7] {
+            for k in 1..=kmax {
+                for d in [-1i128, 0, 1, 2, 3] {
+                    for incl in [false, true] {
+                        v.push(Series { ts, start, end_ts: ts, span: k * step + d, step, incl });
+                    }
+                }
+            }
+        }
+    }
+    v
+}
+
 pub fn long_series() -> Vec<Series> {
     vec![
         // 1 ns steps over 5 ms across a century boundary of the count: 5 000 001 items
@@ -173,7 +192,7 @@ pub fn long_series() -> Vec<Series> {
 pub fn run(rep: &mut Report) {
     let q = rep.quick();
     let leap = LeapTable::load().expect("leap").0;
-    rep.rule = "every series of the product start (per scale: zero, before zero, century boundaries of the count, before/at/after three leap seconds) x span {0,1,2,5,6,7,10,59,60,61,63} units (and +-1 ns) x step {1,2,3,5,7} units x unit {ns, s, day (+ us, min, week thorough)} x {inclusive, exclusive} x end given in the start's scale or another one; each real iterator is stepped with next() to exhaustion and once more, and every yielded item is compared with start + k*step computed from the start. Long-span series (steps of 400 days .. one century, 2..120 steps, spans beyond the i64 nanosecond range) in both tiers; long series (millions of items) in the thorough tier. Non-trivial = span a whole multiple of the step, end in another scale, or start before the reference.".into();
+    rep.rule = "every series of the product start (per scale: zero, before zero, century boundaries of the count, before/at/after three leap seconds) x span {0,1,2,5,6,7,10,59,60,61,63} units (and +-1 ns) x step {1,2,3,5,7} units x unit {ns, s, day (+ us, min, week thorough)} x {inclusive, exclusive} x end given in the start's scale or another one; each real iterator is stepped with next() to exhaustion and once more, and every yielded item is compared with start + k*step computed from the start. Medium series (five non-round steps x every item count 1..512 (thorough 2048) x spans -1..+3 ns around a whole number of steps). Long-span series (steps of 400 days .. one century, 2..120 steps, spans beyond the i64 nanosecond range) in both tiers; long series (millions of items) in the thorough tier. Non-trivial = span a whole multiple of the step, end in another scale, or start before the reference.".into();
     rep.assumptions = vec!["end - start is measured in the end's time scale (left operand, C04); series whose start has no count in the end's scale (inside an inserted UTC interval) are don't-cares".into()];
     let sp = space(q);
     rep.bound("series", sp.len() as u64);
@@ -181,6 +200,9 @@ pub fn run(rep: &mut Report) {
     let lsp = long_span_series();
     rep.bound("long_span_series", lsp.len() as u64);
     sweep(rep, "c15.long_span", lsp.len() as u64, |i, out| j_series(&lsp[i as usize], &leap, out));
+    let msp = medium_series(if q { 512 } else { 2048 });
+    rep.bound("medium_series", msp.len() as u64);
+    sweep(rep, "c15.medium", msp.len() as u64, |i, out| j_series(&msp[i as usize], &leap, out));
     if !q {
         let ls = long_series();
         rep.bound("long_series", ls.len() as u64);
